@@ -169,8 +169,10 @@ REFERENCE_PROBES = [
     'A1', '$B$12', 'C$3', '$D4', 'Z9', 'AA10', 'AB1', 'XFD1048576', 'Sheet1!C3', "'My sheet'!D4", "'S 2'!$A$1", 'Data!AA7',
     'A1:A5', 'B2:F2', 'Sheet1!A1:A9', "'My sheet'!C3:C4", '$A$1:$A$3', 'A1:B2', 'B2:D10', 'Sheet1!A1:C3', "'S 2'!B2:AA4", '$A$1:$C$3',
     'Z1:AB2', 'A:B', 'C:C', "'My sheet'!A:C", 'Sheet1!B:D', 'Y:AB',
+    # column letters and sheet titles that begin like a function name
+    'IF1', 'OR2', 'MAX1:MAX3', 'SUM7', 'DAY3', 'ORDERS!A1', 'SUMMARY!B1:B3', 'MIN4:MIN9', 'IF:IF',
 ]
-TITLE_INDEX = {'Sheet1': 0, 'My sheet': 1, 'S 2': 2, 'Data': 3}
+TITLE_INDEX = {'Sheet1': 0, 'My sheet': 1, 'S 2': 2, 'Data': 3, 'ORDERS': 4, 'SUMMARY': 5}
 OWN_SHEET = 1           # the sheet of the cell that holds the formula
 
 
@@ -230,15 +232,18 @@ def r1_eval(run: Run, src, g):
         in_cell = make_cell([const_av(OWN_SHEET), const_av(7), const_av(8)], {})
         ev.obj_attrs(in_cell)['_handled_identifiers'] = const_av(True)
         construct = f'reference/{ref}'
+        tok = None
         want_sheet, want_corners = _spelled(ref)
         try:
             toks = ev.unbox(ev.call_method('parse', [const_av(ref), in_cell], AV('other', val=('class', 'Lexer'))))
-            if toks.items is None or len(toks.items) != 1 or toks.items[0].kind != 'obj':
-                raise Unknown(f'the reference is not lexed as one token ({len(toks.items or ())})')
+            if toks.items is None or not all(t_.kind == 'obj' for t_ in toks.items):
+                raise Unknown('a token list of unknown contents')
+            if len(toks.items) != 1 or toks.items[0].val[2] not in REFS:
+                run.bad('C02.R1', construct, 'not-one-reference',
+                        f'the reference {ref} is lexed as {[t_.val[2] for t_ in toks.items]}, not as one reference token')
+                continue
             tok = toks.items[0]
             prop = REFS.get(tok.val[2])
-            if prop is None:
-                raise Unknown(f'the reference is lexed as {tok.val[2]}')
             res = ev.ev(ast.parse(f'tok.{prop}', mode='eval').body, {'tok': tok})
             cells = [res] if res.kind == 'obj' else list(res.items or ())
             got = []
@@ -252,9 +257,12 @@ def r1_eval(run: Run, src, g):
             raise AnalysisError('C02.R1', f'{construct}: the abstraction cannot follow the accessor ({u})')
         except AbsRaise as e:
             got = f'raises {e.exc}'
+            if tok is None:
+                run.bad('C02.R1', construct, 'reference-rejected', f'the reference {ref} is rejected by the lexer ({e.exc})')
+                continue
         want = [(want_sheet, c, r) for c, r in want_corners]
-        ci_ = src.cls(tok.val[2]) if not isinstance(got, str) or 'tok' in dir() else None
-        loc = loc_of(ci_.module.path, ci_.methods[REFS[tok.val[2]]].node) if ci_ is not None and tok.val[2] in REFS else ''
+        ci_ = src.cls(tok.val[2]) if tok is not None and src.has_cls(tok.val[2]) else None
+        loc = loc_of(ci_.module.path, ci_.methods[REFS[tok.val[2]]].node) if ci_ is not None and tok.val[2] in REFS and REFS[tok.val[2]] in ci_.methods else ''
         run.check(got == want, 'C02.R1', construct, 'denoted-cells',
                   f'in a formula on sheet {OWN_SHEET} the reference {ref} denotes (sheet, column, row) {got}; it spells {want} (0-based; a '
                   f'whole column has no row)', fact=f'-> {got}', loc=loc)
@@ -646,7 +654,7 @@ def r2_eval_areas(run: Run, src):
     up to and including the second corner, row-major, whole columns over every stored row, straight ranges in order"""
     from ..finite import const_av, Unknown, AbsRaise
     ex = src.cls('Excel')
-    data = [[[1, 2, 3], [4, 5, 6], [7, 8, 9]], [[10]]]
+    data = [[[1, 2, 3], [4, 5, 6], [7, 8, 9]], [[10]], [[1, 2, 3], [4, 5, None], [7, None, None], [None, None, None]]]
 
     def values(v):
         if v.kind == 'obj':
@@ -656,7 +664,12 @@ def r2_eval_areas(run: Run, src):
              ('get_matrix', (0, 0, 2), (0, 2, 2), [[7, 8, 9]], 'A3:C3'), ('get_matrix', (0, 0, None), (0, 1, None), [[1, 2], [4, 5], [7, 8]], 'A:B'),
              ('get_matrix', (0, 2, None), (0, 2, None), [[3], [6], [9]], 'C:C'), ('get_matrix', (1, 0, 0), (1, 0, 0), [[10]], 'second sheet A1:A1'),
              ('get_range', (0, 1, 0), (0, 1, 2), [2, 5, 8], 'B1:B3'), ('get_range', (0, 0, 1), (0, 2, 1), [4, 5, 6], 'A2:C2'),
-             ('get_range', (0, 2, None), (0, 2, None), [3, 6, 9], 'C:C as a range')]
+             ('get_range', (0, 2, None), (0, 2, None), [3, 6, 9], 'C:C as a range'),
+             # columns filled to different heights: a whole column still has one cell per row of the sheet
+             ('get_matrix', (2, 0, None), (2, 2, None), [[1, 2, 3], [4, 5, None], [7, None, None], [None, None, None]], 'A:C on a ragged sheet'),
+             ('get_matrix', (2, 2, None), (2, 2, None), [[3], [None], [None], [None]], 'C:C on a ragged sheet'),
+             ('get_range', (2, 1, None), (2, 1, None), [2, 5, None, None], 'B:B on a ragged sheet as a range'),
+             ('get_range', (2, 0, None), (2, 0, None), [1, 4, 7, None], 'A:A on a ragged sheet as a range')]
     for fn_name, a, b, want, what in cases:
         if fn_name not in ex.methods:
             raise AnalysisError('C02.R2', f'Excel.{fn_name} not found')
